@@ -59,7 +59,8 @@ Record facts := {
   f_call_inherits_static : bool;  (* geth fork EVM.Call hands the interpreter's read-only flag to precompiles *)
   f_snap_each_call : bool;        (* StateDB.SavePrecompileCalledJournalChange appends the multistore snapshot to the journal on EVERY call *)
   f_max_calls : Z;                (* maxMultistoreCacheCount: precompile calls one StateDB admits (the count is compared after the increment) *)
-  f_revert_decode_total : bool    (* evm.NewRevertError never slices / indexes the revert data of a called contract beyond its length *)
+  f_revert_decode_total : bool;   (* evm.NewRevertError never slices / indexes the revert data of a called contract beyond its length *)
+  f_pair_validation_total : bool  (* asset.TryNewPair / Pair.Validate judge the WHOLE string of each side (anchored): no string holding a NUL passes *)
 }.
 
 Definition f_len_guard (F : facts) := g_len (f_guards F).
@@ -165,6 +166,13 @@ Definition valid_pair (s : list Z) : bool :=
   | _ => false
   end.
 
+(** A pair validation whose per-side pattern is not anchored at the end (`^[a-zA-Z][a-zA-Z0-9/._-]{1,127}` without `$`):
+    a side passes as soon as it STARTS with a letter and one more denom character, whatever follows *)
+Definition lax_side (s : list Z) : bool :=
+  match s with c :: d :: _ => is_alpha c && denom_char d && negb (d =? 58) | _ => false end.
+Definition lax_pair (s : list Z) : bool :=
+  match split_colon s [] with [a; b] => lax_side a && lax_side b | _ => false end.
+
 (* ------------------------------------------------------------------ library calls that can panic *)
 
 Definition two256 : Z := 2 ^ 256.
@@ -212,6 +220,14 @@ Definition has_nul (s : list Z) : bool := existsb (fun c => c =? 0) s.
 
 Definition funds_panic (l : list (list Z * Z)) : bool := existsb (fun c => int_from_big_panics (snd c)) l.
 
+(** Oracle queries: asset.TryNewPair(pair), then ExchangeRates.Get(ctx, pair) — a collections map keyed by the pair
+    STRING: the key encoder panics on a NUL character.  The anchored validation lets no NUL through; an unanchored
+    one lets "unibi:uusd\x00" reach the key encoder. *)
+Definition oracle_pair (F : facts) (p : list Z) : vres :=
+  if valid_pair p then VPass
+  else if negb (f_pair_validation_total F) && lax_pair p then (if has_nul p then VPanic else VPass)
+  else VErr.
+
 (** guard/validator prefix of every handler after the context guard, up to the first keeper call *)
 Definition validate (F : facts) (m : mid) (args : list arg) : vres :=
   match m, args with
@@ -249,8 +265,8 @@ Definition validate (F : facts) (m : mid) (args : list arg) : vres :=
   | W_executeMulti, [AMsgs l] =>
       (* per message: bech32, json, then NewIntFromBigInt on every fund before Execute *)
       VPass
-  | O_queryExchangeRate, [AStr p _ _ _] => if valid_pair p then VPass else VErr
-  | O_chainLinkLatestRoundData, [AStr p _ _ _] => if valid_pair p then VPass else VErr
+  | O_queryExchangeRate, [AStr p _ _ _] => oracle_pair F p
+  | O_chainLinkLatestRoundData, [AStr p _ _ _] => oracle_pair F p
   | M_other, _ => VPass
   | _, _ => VErr                        (* assertNumArgs / ErrArgTypeValidation *)
   end.
@@ -423,7 +439,8 @@ Definition with_guards (F : facts) (g : panic_guards) : facts :=
      f_local_meter := f_local_meter F; f_oog_only := f_oog_only F; f_addr_conv_total := f_addr_conv_total F; f_direct_ro := f_direct_ro F;
      f_call_inherits_static := f_call_inherits_static F;
      f_snap_each_call := f_snap_each_call F; f_max_calls := f_max_calls F;
-     f_revert_decode_total := f_revert_decode_total F |}.
+     f_revert_decode_total := f_revert_decode_total F;
+     f_pair_validation_total := f_pair_validation_total F |}.
 
 Definition all_guards : panic_guards :=
   {| g_len := true; g_denom := true; g_amount := true; g_evm_denom := true; g_erc20_nul := true; g_supply := true |}.
@@ -447,13 +464,15 @@ Definition with_oracle_oog (F : facts) (b : bool) : facts :=
      f_local_meter := f_local_meter F; f_oog_only := f_oog_only F; f_addr_conv_total := f_addr_conv_total F; f_direct_ro := f_direct_ro F;
      f_call_inherits_static := f_call_inherits_static F;
      f_snap_each_call := f_snap_each_call F; f_max_calls := f_max_calls F;
-     f_revert_decode_total := f_revert_decode_total F |}.
+     f_revert_decode_total := f_revert_decode_total F;
+     f_pair_validation_total := f_pair_validation_total F |}.
 
 Definition with_call_inherits (F : facts) (b : bool) : facts :=
   {| f_funtoken := f_funtoken F; f_wasm := f_wasm F; f_oracle := f_oracle F; f_guards := f_guards F;
      f_local_meter := f_local_meter F; f_oog_only := f_oog_only F; f_addr_conv_total := f_addr_conv_total F; f_direct_ro := f_direct_ro F;
      f_call_inherits_static := b; f_snap_each_call := f_snap_each_call F; f_max_calls := f_max_calls F;
-     f_revert_decode_total := f_revert_decode_total F |}.
+     f_revert_decode_total := f_revert_decode_total F;
+     f_pair_validation_total := f_pair_validation_total F |}.
 
 (** a local gas meter that is not capped by the gas left on the contract (seeded change
     "local gas meter oversized": limit = contract.Gas + requiredGas) *)
@@ -462,14 +481,16 @@ Definition with_local_meter (F : facts) (b : bool) : facts :=
      f_local_meter := b; f_oog_only := f_oog_only F; f_addr_conv_total := f_addr_conv_total F; f_direct_ro := f_direct_ro F;
      f_call_inherits_static := f_call_inherits_static F;
      f_snap_each_call := f_snap_each_call F; f_max_calls := f_max_calls F;
-     f_revert_decode_total := f_revert_decode_total F |}.
+     f_revert_decode_total := f_revert_decode_total F;
+     f_pair_validation_total := f_pair_validation_total F |}.
 
 Definition with_addr_conv (F : facts) (b : bool) : facts :=
   {| f_funtoken := f_funtoken F; f_wasm := f_wasm F; f_oracle := f_oracle F; f_guards := f_guards F;
      f_local_meter := f_local_meter F; f_oog_only := f_oog_only F; f_addr_conv_total := b;
      f_direct_ro := f_direct_ro F; f_call_inherits_static := f_call_inherits_static F;
      f_snap_each_call := f_snap_each_call F; f_max_calls := f_max_calls F;
-     f_revert_decode_total := f_revert_decode_total F |}.
+     f_revert_decode_total := f_revert_decode_total F;
+     f_pair_validation_total := f_pair_validation_total F |}.
 
 (** SavePrecompileCalledJournalChange that keeps the previous snapshot when the latest journal entry already
     is a precompile snapshot (seeded change "precompile snapshot coalesced") *)
@@ -477,7 +498,8 @@ Definition with_snap_each (F : facts) (b : bool) : facts :=
   {| f_funtoken := f_funtoken F; f_wasm := f_wasm F; f_oracle := f_oracle F; f_guards := f_guards F;
      f_local_meter := f_local_meter F; f_oog_only := f_oog_only F; f_addr_conv_total := f_addr_conv_total F;
      f_direct_ro := f_direct_ro F; f_call_inherits_static := f_call_inherits_static F;
-     f_snap_each_call := b; f_max_calls := f_max_calls F; f_revert_decode_total := f_revert_decode_total F |}.
+     f_snap_each_call := b; f_max_calls := f_max_calls F; f_revert_decode_total := f_revert_decode_total F;
+     f_pair_validation_total := f_pair_validation_total F |}.
 
 (* ------------------------------------------------------------------ one transaction: SEQUENCES of calls on one StateDB *)
 
@@ -600,4 +622,12 @@ Definition with_revert_decode (F : facts) (b : bool) : facts :=
   {| f_funtoken := f_funtoken F; f_wasm := f_wasm F; f_oracle := f_oracle F; f_guards := f_guards F;
      f_local_meter := f_local_meter F; f_oog_only := f_oog_only F; f_addr_conv_total := f_addr_conv_total F;
      f_direct_ro := f_direct_ro F; f_call_inherits_static := f_call_inherits_static F;
-     f_snap_each_call := f_snap_each_call F; f_max_calls := f_max_calls F; f_revert_decode_total := b |}.
+     f_snap_each_call := f_snap_each_call F; f_max_calls := f_max_calls F; f_revert_decode_total := b; f_pair_validation_total := f_pair_validation_total F |}.
+
+(** asset.Pair.Validate with a per-side pattern that is not anchored at the end (seeded change "pair regex unanchored") *)
+Definition with_pair_validation (F : facts) (b : bool) : facts :=
+  {| f_funtoken := f_funtoken F; f_wasm := f_wasm F; f_oracle := f_oracle F; f_guards := f_guards F;
+     f_local_meter := f_local_meter F; f_oog_only := f_oog_only F; f_addr_conv_total := f_addr_conv_total F;
+     f_direct_ro := f_direct_ro F; f_call_inherits_static := f_call_inherits_static F;
+     f_snap_each_call := f_snap_each_call F; f_max_calls := f_max_calls F;
+     f_revert_decode_total := f_revert_decode_total F; f_pair_validation_total := b |}.
